@@ -32,7 +32,7 @@ def main():
   alarms = {}
   for i in range(1, 20):
     p = f"C{i:02d}"
-    r = se.sh(f"cd /verif && /venv/bin/python -m ttverif check {p} --root {VAL}/src/main/python")
+    r = se.sh(f"cd {os.environ.get('TTV_VERIF', '/verif')} && /venv/bin/python -m ttverif check {p} --root {VAL}/src/main/python")
     if r.returncode != 0:
       lines = [l.strip()[:260] for l in r.stdout.splitlines() if l.strip().startswith("violated:") or "ANALYSIS-ERROR" in l]
       alarms[p] = {"rc": r.returncode, "lines": lines[:4]}
